@@ -143,3 +143,336 @@ Proof.
   inversion Hs as [Hs']. exists id0, ir0, irX. split; [exact Hget|]. split; [reflexivity|].
   apply sig_of_ir_erase. congruence.
 Qed.
+
+(** ** 3. the model: inversion of the state monad *)
+Lemma xbind_ok {A B} (x : M A) (f : A -> M B) st b st' :
+  mbind x f st = XOk (b, st') -> exists a st1, x st = XOk (a, st1) /\ f a st1 = XOk (b, st').
+Proof.
+  unfold mbind. destruct (x st) as [[a st1]|e|msg]; intros H; try discriminate. eauto.
+Qed.
+
+Lemma xret_ok {A} (a b : A) st st' : mret a st = XOk (b, st') -> b = a.
+Proof. unfold mret. intros H; inversion H; reflexivity. Qed.
+
+Lemma xlift_ok {A} (x : result A) st a st' : lift x st = XOk (a, st') -> x = Ok a.
+Proof.
+  unfold lift. destruct x as [a0|e|msg]; intros H; try discriminate.
+  - inversion H; reflexivity.
+  - destruct e; discriminate.
+Qed.
+
+Lemma xdraw_ok {A} (d : rng A) st a st' : mdraw d st = XOk (a, st') -> exists ws', d (snd st) = Drawn a ws'.
+Proof.
+  unfold mdraw. destruct (d (snd st)) as [a0 ws'|]; intros H; [|discriminate].
+  inversion H; subst. eauto.
+Qed.
+
+Lemma xchoose_unwrap_ok {A} (l : list A) st a st' : choose_unwrap l st = XOk (a, st') -> In a l.
+Proof.
+  unfold choose_unwrap. intros H. apply xbind_ok in H as (o & st1 & H1 & H).
+  apply xdraw_ok in H1 as (ws' & H1). destruct o as [a0|]; [|discriminate].
+  apply xret_ok in H. subst. eapply choose_in; eauto.
+Qed.
+
+Lemma xformat_ident_ok x st y st' : format_ident x st = XOk (y, st') -> y = x.
+Proof. unfold format_ident. destruct (ident_lexb x); [apply xret_ok|discriminate]. Qed.
+
+Definition Sat {A} (P : A -> Prop) (x : M A) : Prop :=
+  forall st v st', x st = XOk (v, st') -> P v.
+
+Lemma xmmapM_ok {A B} (P : A -> B -> Prop) (f : A -> M B) : forall l,
+  (forall x, In x l -> Sat (P x) (f x)) -> Sat (Forall2 P l) (mmapM f l).
+Proof.
+  induction l as [|x l IH]; intros Hf st v st' H; cbn [mmapM] in H.
+  - apply xret_ok in H. subst. constructor.
+  - apply xbind_ok in H as (y & st1 & Hy & H). apply xbind_ok in H as (ys & st2 & Hys & H).
+    apply xret_ok in H. subst. constructor.
+    + eapply Hf; [left; reflexivity|exact Hy].
+    + eapply IH; [|exact Hys]. intros x' Hx'. apply Hf. right; exact Hx'.
+Qed.
+
+(** ** primitives *)
+Lemma prim_example_lit p : Sat (fun v => forall rest, prim_lit p (v ++ rest) rest) (prim_example p).
+Proof.
+  intros st v st' H rest.
+  assert (Hs : forall bits n, (0 < bits)%N -> (n < 2 ^ bits)%N ->
+               (- Z.of_N (2 ^ (bits - 1)) <= to_signed bits n < Z.of_N (2 ^ (bits - 1)))%Z).
+  { intros bits n Hb Hn. pose proof (to_signed_in bits n Hb Hn) as Hi. unfold ExampleValue.in_signed in Hi.
+    apply andb_prop in Hi as [H1 H2]. apply Z.leb_le in H1. apply Z.ltb_lt in H2. split; assumption. }
+  destruct p; cbn [prim_example] in H; apply xbind_ok in H as (a & st1 & H1 & H);
+    apply xret_ok in H; subst v; cbn [prim_lit].
+  - (* bool *) destruct a; [left|right]; reflexivity.
+  - (* char *) apply xchoose_unwrap_ok in H1. unfold example_chars in H1. cbn [In] in H1.
+    repeat (destruct H1 as [<-|H1]; [eexists; split; [|reflexivity]; reflexivity|]). destruct H1.
+  - (* str *) apply xchoose_unwrap_ok in H1. unfold example_strings in H1. cbn [In] in H1.
+    repeat (destruct H1 as [<-|H1]; [eexists; split; [|reflexivity]; reflexivity|]). destruct H1.
+  - apply xdraw_ok in H1 as (ws' & H1). apply gen_u8_range in H1. exists a. split; [exact H1|reflexivity].
+  - apply xdraw_ok in H1 as (ws' & H1). apply gen_u16_range in H1. exists a. split; [exact H1|reflexivity].
+  - apply xdraw_ok in H1 as (ws' & H1). apply gen_u32_range in H1. exists a. split; [exact H1|reflexivity].
+  - apply xdraw_ok in H1 as (ws' & H1). apply gen_u64_range in H1. exists a. split; [exact H1|reflexivity].
+  - apply xdraw_ok in H1 as (ws' & H1). apply gen_u128_range in H1. exists a. split; [exact H1|reflexivity].
+  - apply xdraw_ok in H1 as (ws' & H1).
+    apply (gen_repeat_ok (fun b => b < 256)%N) in H1 as [L F]; [|intros ws0 a0 r0; apply gen_u8_range].
+    exists a. split; [exact L|]. split; [exact F|reflexivity].
+  - apply xdraw_ok in H1 as (ws' & H1). apply rng_map_inv in H1 as (n & H1 & ->).
+    apply gen_u8_range in H1. eexists. split; [apply Hs; [reflexivity|exact H1]|reflexivity].
+  - apply xdraw_ok in H1 as (ws' & H1). apply rng_map_inv in H1 as (n & H1 & ->).
+    apply gen_u16_range in H1. eexists. split; [apply Hs; [reflexivity|exact H1]|reflexivity].
+  - apply xdraw_ok in H1 as (ws' & H1). apply rng_map_inv in H1 as (n & H1 & ->).
+    apply gen_u32_range in H1. eexists. split; [apply Hs; [reflexivity|exact H1]|reflexivity].
+  - apply xdraw_ok in H1 as (ws' & H1). apply rng_map_inv in H1 as (n & H1 & ->).
+    apply gen_u64_range in H1. eexists. split; [apply Hs; [reflexivity|exact H1]|reflexivity].
+  - apply xdraw_ok in H1 as (ws' & H1). apply rng_map_inv in H1 as (n & H1 & ->).
+    apply gen_u128_range in H1. eexists. split; [apply Hs; [reflexivity|exact H1]|reflexivity].
+  - apply xdraw_ok in H1 as (ws' & H1).
+    apply (gen_repeat_ok (fun b => b < 256)%N) in H1 as [L F]; [|intros ws0 a0 r0; apply gen_u8_range].
+    exists a. split; [exact L|]. split; [exact F|reflexivity].
+Qed.
+
+Section Main.
+  Variable r : registry.
+  Variable s : settings.
+  Variable teq : N -> N -> result bool.
+  Variable m : items.
+  Hypothesis Hgen : generate r s teq = Ok m.
+  Hypothesis Hsk : skeleton_consistent r s.
+
+  Notation conf := (conforms r s m).
+
+  (** [v] is an instance of [id] in front of every continuation *)
+  Definition Inst (id : N) (v : tokens) : Prop := forall rest, conf id (v ++ rest) rest.
+
+  Lemma wrap_value f v : Inst (f_ty f) v -> forall rest, conf_value conf f (wrap_compact f v ++ rest) rest.
+  Proof.
+    intros Hv rest. unfold wrap_compact. destruct (explicit_compact f) eqn:E.
+    - rewrite <- !List.app_assoc. cbn [app]. apply cv_compact; [exact E|]. apply Hv.
+    - apply cv_plain; [exact E|apply Hv].
+  Qed.
+
+  Definition field_tokens (f : field) (y : tokens) : Prop :=
+    exists v, Inst (f_ty f) v /\ y = [field_label f; ":"] ++ wrap_compact f v ++ [","].
+
+  Lemma named_field_ok rec f : (forall j, Sat (Inst j) (rec j)) -> Sat (field_tokens f) (named_field rec f).
+  Proof.
+    intros Hrec st y st' H. unfold named_field in H. unfold field_tokens, field_label.
+    destruct (f_name f) as [n|]; [|discriminate].
+    apply xbind_ok in H as (i & st1 & Hi & H). apply xformat_ident_ok in Hi. subst i.
+    apply xbind_ok in H as (v & st2 & Hv & H). apply xret_ok in H. subst y.
+    exists v. split; [eapply Hrec; eauto|reflexivity].
+  Qed.
+
+  Lemma named_concat : forall fs l,
+    Forall2 field_tokens fs l ->
+    forall rest, conf_named conf (map field_label fs) fs (List.concat l ++ rest) rest.
+  Proof.
+    induction 1 as [|f y fs l (v & Hv & ->) _ IH]; intros rest; cbn [map List.concat app].
+    - constructor.
+    - rewrite <- !List.app_assoc. cbn [app]. eapply cn_cons; [|apply IH].
+      apply wrap_value. exact Hv.
+  Qed.
+
+  Definition value_tokens (f : field) (y : tokens) : Prop :=
+    exists v, Inst (f_ty f) v /\ y = wrap_compact f v ++ [","].
+
+  Lemma unnamed_field_ok rec f : (forall j, Sat (Inst j) (rec j)) -> Sat (value_tokens f) (unnamed_field rec f).
+  Proof.
+    intros Hrec st y st' H. unfold unnamed_field in H.
+    apply xbind_ok in H as (v & st2 & Hv & H). apply xret_ok in H. subst y.
+    exists v. split; [eapply Hrec; eauto|reflexivity].
+  Qed.
+
+  Lemma unnamed_concat : forall fs l,
+    Forall2 value_tokens fs l ->
+    forall rest, conf_unnamed conf (List.length fs) fs (List.concat l ++ rest) rest.
+  Proof.
+    induction 1 as [|f y fs l (v & Hv & ->) _ IH]; intros rest; cbn [List.length List.concat app].
+    - constructor.
+    - rewrite <- !List.app_assoc. cbn [app]. eapply cu_cons; [|apply IH]. apply wrap_value. exact Hv.
+  Qed.
+
+  Lemma fields_example_shape rec fs u :
+    (forall j, Sat (Inst j) (rec j)) ->
+    Sat (fun f => exists L, layout_of_fields fs = Some L /\
+                            (forall rest, conf_shape conf L u fs (f ++ rest) rest) /\
+                            (f = [] -> fs = []))
+        (fields_example rec fs u).
+  Proof.
+    intros Hrec st f st' H. unfold fields_example in H. unfold layout_of_fields.
+    destruct (all_named fs) eqn:An; destruct (all_unnamed fs) eqn:Au.
+    - pose proof (all_named_unnamed_nil fs An Au) as ->. apply xret_ok in H. subst f.
+      exists LUnit. split; [reflexivity|]. split; [|reflexivity]. intros rest.
+      destruct u; [|apply cs_unit]. rewrite <- !List.app_assoc. cbn [app]. apply cs_unit_marker.
+    - apply xbind_ok in H as (l & st1 & Hl & H). apply xret_ok in H. subst f.
+      apply (xmmapM_ok field_tokens) in Hl; [|intros f _; apply named_field_ok; exact Hrec].
+      destruct fs as [|f0 fs0]; [discriminate|]. eexists. split; [reflexivity|]. split; [|discriminate].
+      intros rest. cbn [app]. apply cs_named. rewrite <- !List.app_assoc.
+      replace ((if u then ["__ignore"; ":"] ++ marker_path else []) ++ ["}"] ++ rest)
+        with (named_marker u ++ "}" :: rest) by (destruct u; reflexivity).
+      apply named_concat. exact Hl.
+    - apply xbind_ok in H as (l & st1 & Hl & H). apply xret_ok in H. subst f.
+      apply (xmmapM_ok value_tokens) in Hl; [|intros f _; apply unnamed_field_ok; exact Hrec].
+      destruct fs as [|f0 fs0]; [discriminate|]. eexists. split; [reflexivity|]. split; [|discriminate].
+      intros rest. cbn [app]. apply cs_unnamed. rewrite <- !List.app_assoc.
+      replace ((if u then marker_path else []) ++ [")"] ++ rest)
+        with (unnamed_marker u ++ ")" :: rest) by (destruct u; reflexivity).
+      apply unnamed_concat. exact Hl.
+    - discriminate.
+  Qed.
+
+  (** [n] copies joined by commas *)
+  Lemma copies_sep e x : Inst e x -> forall len rest, conf_sep conf e len (copies len x ++ rest) rest.
+  Proof.
+    intros Hx len rest. unfold copies.
+    assert (K : forall k rest0,
+               conf_sep conf e (N.of_nat k) (sep_by [","%string] (Nat.iter k (fun acc => x :: acc) []) ++ rest0) rest0).
+    { induction k as [|k IHk]; intros rest0.
+      - cbn. apply sep_0.
+      - destruct k as [|k'].
+        + cbn. apply sep_1. apply Hx.
+        + rewrite Nat2N.inj_succ. specialize (IHk rest0).
+          change (Nat.iter (S (S k')) (fun acc => x :: acc) [])
+            with (x :: x :: Nat.iter k' (fun acc => x :: acc) []).
+          change (Nat.iter (S k') (fun acc => x :: acc) [])
+            with (x :: Nat.iter k' (fun acc => x :: acc) []) in IHk.
+          cbn [sep_by] in *. rewrite <- !List.app_assoc. cbn [app].
+          eapply sep_S; [lia|apply Hx|exact IHk]. }
+    rewrite N2Nat.inj_iter. specialize (K (N.to_nat len) rest). rewrite N2Nat.id in K. exact K.
+  Qed.
+
+  Lemma tuple_concat : forall ts l,
+    Forall2 Inst ts l ->
+    forall rest, conf_tuple conf ts (flat_map (fun v => v ++ [","]) l ++ rest) rest.
+  Proof.
+    induction 1 as [|i v ts l Hv _ IH]; intros rest; cbn [flat_map app].
+    - constructor.
+    - rewrite <- !List.app_assoc. cbn [app]. eapply ct_cons; [apply Hv|apply IH].
+  Qed.
+
+  Lemma lookup_In id t : lookup r id = Some t -> In (id, t) r.
+  Proof.
+    intros L. apply resolve_In; [eapply generate_sanity; eauto|apply lookup_resolve; exact L].
+  Qed.
+
+  Lemma unused_is_marker t u :
+    has_unused_type_params r s t = Ok u ->
+    forall irX, create_type_ir r s t (mk_flat derives_empty []) = Ok (Some irX) -> u = has_marker irX.
+  Proof.
+    unfold has_unused_type_params. intros H irX E. rewrite E in H. cbn [bind] in H.
+    inversion H. reflexivity.
+  Qed.
+
+  Lemma option_none_shape (p : tokens) vi (f : tokens) :
+    list_eqb String.eqb (p ++ [":"; ":"; vi] ++ f) ["Option"; ":"; ":"; "None"]%string = true ->
+    p = ["Option"%string] /\ vi = "None"%string /\ f = [].
+  Proof.
+    intros H.
+    assert (E : p ++ [":"; ":"; vi] ++ f = ["Option"; ":"; ":"; "None"]%string).
+    { revert H. generalize (p ++ [":"; ":"; vi] ++ f) as a. generalize ["Option"; ":"; ":"; "None"]%string as b.
+      intros b a. revert b. induction a as [|x a IH]; intros [|y b]; cbn [list_eqb]; try discriminate; [reflexivity|].
+      intros H. apply andb_prop in H as [H1 H2]. apply String.eqb_eq in H1. subst. f_equal. apply IH. exact H2. }
+    destruct p as [|p0 p]; cbn [app] in E; [discriminate E|].
+    injection E as E0 E. subst p0.
+    destruct p as [|p1 p]; cbn [app] in E.
+    { injection E as Evi Ef. subst. auto. }
+    injection E as E1 E.
+    destruct p as [|p2 p]; cbn [app] in E; [discriminate E|].
+    injection E as E2 E.
+    destruct p as [|p3 p]; cbn [app] in E; [discriminate E|].
+    injection E as E3 E. destruct p; discriminate E.
+  Qed.
+
+  Lemma ty_go_inst (rec : N -> M tokens) :
+    (forall j, Sat (Inst j) (rec j)) ->
+    forall fi id t, lookup r id = Some t -> Sat (Inst id) (ty_go r s rec fi id t).
+  Proof.
+    intros Hrec. induction fi as [|fi IH]; intros id t L st v st' H; [discriminate|].
+    cbn [ty_go] in H. destruct (t_def t) eqn:D.
+    - (* composite *)
+      destruct (cow_inner t) as [inner|] eqn:Ec; unfold cow_inner in Ec; rewrite Ec in H.
+      { intros rest. eapply c_cow; eauto; eapply Hrec; eauto. }
+      apply xbind_ok in H as (p & st1 & Hp & H). apply xlift_ok in Hp.
+      apply xbind_ok in H as (u & st2 & Hu & H). apply xlift_ok in Hu.
+      apply xbind_ok in H as (f & st3 & Hf & H). apply xret_ok in H. subst v.
+      apply (fields_example_shape rec fs u Hrec) in Hf as (L0 & HL0 & Hshape & _).
+      intros rest. rewrite <- List.app_assoc.
+      destruct (item_eligible s t) eqn:El.
+      + destruct (item_of_entry r s teq m Hgen Hsk id t (lookup_In id t L) El)
+          as (id0 & ir0 & irX & Hget & HirX & Hsig).
+        pose proof (create_type_ir_sig _ _ _ _ _ HirX) as Hes. unfold entry_sig_ok in Hes. rewrite D in Hes.
+        destruct Hes as (L1 & HL1 & Hs1). rewrite HL0 in HL1. inversion HL1; subst L1.
+        rewrite (unused_is_marker t u Hu irX HirX) in *.
+        eapply c_struct_item; eauto. congruence.
+      + eapply c_struct_foreign; eauto.
+    - (* variant *)
+      apply xbind_ok in H as (p & st1 & Hp & H). apply xlift_ok in Hp.
+      apply xbind_ok in H as (o & st2 & Ho & H). apply xdraw_ok in Ho as (ws' & Ho).
+      destruct o as [vr|]; [|discriminate]. apply choose_in in Ho.
+      apply xbind_ok in H as (vi & st3 & Hvi & H). apply xformat_ident_ok in Hvi. subst vi.
+      apply xbind_ok in H as (f & st4 & Hf & H). apply xret_ok in H.
+      apply (fields_example_shape rec (v_fields vr) false Hrec) in Hf as (L0 & HL0 & Hshape & Hnil).
+      destruct (list_eqb String.eqb (p ++ [":"; ":"; v_name vr] ++ f) ["Option"; ":"; ":"; "None"]%string) eqn:EN.
+      { apply option_none_shape in EN as (-> & Hvn & ->). subst v. intros rest. cbn [app].
+        eapply c_none; eauto. }
+      subst v. intros rest. rewrite <- !List.app_assoc. cbn [app].
+      destruct (item_eligible s t) eqn:El.
+      + destruct (item_of_entry r s teq m Hgen Hsk id t (lookup_In id t L) El)
+          as (id0 & ir0 & irX & Hget & HirX & Hsig).
+        pose proof (create_type_ir_sig _ _ _ _ _ HirX) as Hes. unfold entry_sig_ok in Hes. rewrite D in Hes.
+        destruct Hes as (sigs & Hs1 & HF).
+        assert (Hin : In (v_name vr, L0) sigs).
+        { clear - HF Ho HL0. induction HF as [|v0 x vs0 sigs0 [Hx1 Hx2] _ IHF]; [destruct Ho|].
+          destruct Ho as [->|Ho]; [left|right; apply IHF; exact Ho].
+          destruct x as [xn xl]. cbn [fst snd] in *. subst xn. congruence. }
+        eapply c_variant_item; eauto. congruence.
+      + eapply c_variant_foreign; eauto.
+    - (* sequence *)
+      apply xbind_ok in H as (te & st1 & Hte & H). unfold resolve_type_m in Hte.
+      destruct (lookup r t0) as [te'|] eqn:Le; [|discriminate]. apply xret_ok in Hte. subst te'.
+      apply xbind_ok in H as (a & st2 & Ha & H). apply xbind_ok in H as (b & st3 & Hb & H).
+      apply xret_ok in H. subst v. intros rest.
+      pose proof (IH t0 te Le _ _ _ Ha) as HA. pose proof (IH t0 te Le _ _ _ Hb) as HB.
+      rewrite <- !List.app_assoc. cbn [app]. eapply c_seq with (n := 2%N); eauto.
+      change 2%N with (N.succ 1). eapply sep_S; [lia|apply HA|]. apply sep_1. apply HB.
+    - (* array *)
+      apply xbind_ok in H as (te & st1 & Hte & H). unfold resolve_type_m in Hte.
+      destruct (lookup r t0) as [te'|] eqn:Le; [|discriminate]. apply xret_ok in Hte. subst te'.
+      apply xbind_ok in H as (item & st2 & Hitem & H). apply xbind_ok in H as (cp & st3 & Hcp & H).
+      apply xret_ok in H. subst v. intros rest.
+      pose proof (IH t0 te Le _ _ _ Hitem) as HI.
+      destruct cp; rewrite <- !List.app_assoc; cbn [app].
+      + eapply c_array_repeat; eauto; apply HI.
+      + eapply c_array_list; eauto; apply copies_sep; exact HI.
+    - (* tuple *)
+      apply xbind_ok in H as (l & st1 & Hl & H). apply xret_ok in H. subst v.
+      apply (xmmapM_ok Inst) in Hl; [|intros j _; apply Hrec].
+      intros rest. rewrite <- !List.app_assoc. cbn [app]. eapply c_tuple; eauto;
+      apply tuple_concat; exact Hl.
+    - (* primitive *)
+      intros rest. eapply c_prim; eauto; eapply prim_example_lit; eauto.
+    - (* compact *)
+      intros rest. eapply c_compact; eauto; eapply Hrec; eauto.
+    - (* bit sequence *)
+      apply xret_ok in H. subst v. intros rest. eapply c_bits; eauto.
+  Qed.
+
+  Lemma resolve_go_inst : forall fo id, Sat (Inst id) (resolve_go r s fo id).
+  Proof.
+    induction fo as [|fo IH]; intros id st v st' H; [discriminate|].
+    cbn [resolve_go] in H. destruct (lookup r id) as [t|] eqn:L; [|discriminate].
+    assert (K : forall st1, match ty_go r s (resolve_go r s fo) (inner_fuel r) id t st1 with
+                            | XOk (v0, s') => XOk (v0, (cache_set id (CComputed v0) (fst s'), snd s'))
+                            | XErr e => XErr e
+                            | XPanic msg => XPanic msg
+                            end = XOk (v, st') -> Inst id v).
+    { intros st1 K. destruct (ty_go r s (resolve_go r s fo) (inner_fuel r) id t st1) as [[v0 s']|e|msg] eqn:E;
+        try discriminate. inversion K; subst. eapply ty_go_inst; eauto. }
+    destruct (cache_get (fst st) id) as [[|v0]|]; [discriminate| |]; eapply K; exact H.
+  Qed.
+
+  Theorem example_conforms id ws ts : example_rust r s id ws = XOk ts -> conf id ts [].
+  Proof.
+    unfold example_rust, example_run. intros H.
+    destruct (resolve_go r s (outer_fuel r) id ([], ws)) as [[v st']|e|msg] eqn:E; try discriminate.
+    inversion H; subst. pose proof (resolve_go_inst _ _ _ _ _ E []) as K. rewrite app_nil_r in K. exact K.
+  Qed.
+End Main.
